@@ -21,8 +21,9 @@ def act : Pc → Bool
 @[simp] theorem act_write : act .write = true := rfl
 @[simp] theorem act_bRel (b : Bool) : act (.bRel b) = true := rfl
 theorem act_wake (p : Pc) : act (wake p) = act p := by cases p <;> rfl
-@[simp] theorem act_firstPc (cfg : Cfg) (q : Nat) : act (firstPc cfg q) = true := by
-  unfold firstPc; split <;> rfl
+@[simp] theorem act_firstPc (cfg : Cfg) (q : Nat) : act (firstPc cfg q) = true := rfl
+@[simp] theorem act_afterT (cfg : Cfg) (q : Nat) : act (afterT cfg q) = true := by
+  unfold afterT; split <;> rfl
 
 /-- the owner of the pool is inside its executor (between creation and the end of `shutdown`) -/
 def ownAct : OwnerPc → Bool
@@ -603,12 +604,13 @@ theorem PInv_step {cfg : Cfg} (wf : WF cfg) {s s' : State} {l : Label} (hs : SIn
   | cbFail i hi hf =>
       exact PInv_finish wf (s := { s with log := s.log ++ [i], cbLock := false
                                           cbIn := if (cfg.pool (cfg.poolOf i)).innerCb
-                                            then s.cbIn.set (cfg.poolOf i) false else s.cbIn })
+                                            then s.cbIn.set (cfg.poolOf i) false else s.cbIn
+                                          tLocks := s.tLocks.set (cfg.obj i) false })
         (PInv_tasks h rfl (fun _ => rfl))
-        (SInv_congr hs rfl rfl rfl rfl (by simp only; split <;> simp) (fun _ => rfl) (fun _ => rfl))
+        (SInv_congr hs rfl rfl (by simp) rfl (by simp only; split <;> simp) (fun _ => rfl) (fun _ => rfl))
         false hi rfl
   | cbOk i hi hf => exact PInv_tasks h rfl (act_set_same hi rfl)
-  | tAcq i hi hl => exact PInv_tasks h rfl (act_set_same hi rfl)
+  | tAcq i hi hl => exact PInv_tasks h rfl (act_set_same hi (by simp))
   | bTry i p hi hp =>
       have hp1 : act p = true := by rcases hp with rfl | rfl <;> rfl
       rcases budgetTry_cases cfg s i with ⟨_, _, e⟩ | ⟨_, _, e⟩ | ⟨_, _, e⟩ | ⟨_, _, e⟩ <;> rw [e] <;>
@@ -644,8 +646,9 @@ theorem set_waiting {l : List Pc} {i k : Nat} {x : Pc} (hx : x ≠ .waiting)
   simp only [List.getElem?_set] at h
   (repeat' split at h) <;> simp_all
 
-theorem firstPc_ne_waiting (cfg : Cfg) (q : Nat) : firstPc cfg q ≠ .waiting := by
-  unfold firstPc; split <;> simp
+theorem firstPc_ne_waiting (cfg : Cfg) (q : Nat) : firstPc cfg q ≠ .waiting := by simp [firstPc]
+theorem afterT_ne_waiting (cfg : Cfg) (q : Nat) : afterT cfg q ≠ .waiting := by
+  unfold afterT; split <;> simp
 
 theorem WInv_step {cfg : Cfg} {s s' : State} {l : Label} (h : WInv cfg s)
     (hst : StepRel cfg s l s') : WInv cfg s' := by
@@ -669,7 +672,7 @@ theorem WInv_step {cfg : Cfg} {s s' : State} {l : Label} (h : WInv cfg s)
       have := finishTask_waiting hk
       simpa using h k this
   | cbOk i hi hf => intro k hk; exact h k (set_waiting (by simp) hk)
-  | tAcq i hi hl => intro k hk; exact h k (set_waiting (by simp) hk)
+  | tAcq i hi hl => intro k hk; exact h k (set_waiting (afterT_ne_waiting _ _) hk)
   | bTry i p hi hp =>
       rcases budgetTry_cases cfg s i with ⟨h1, h2, e⟩ | ⟨h1, h2, e⟩ | ⟨h1, h2, e⟩ | ⟨h1, h2, e⟩ <;>
         rw [e] <;> intro k hk
